@@ -1,0 +1,28 @@
+//go:build verif
+
+package server
+
+import "github.com/resgateio/resgate/server/reserr"
+
+// Verification hooks (build tag verif): read-only accessors to unexported pure functions.
+
+// VerifErrorStatus exposes errorStatus for a RES error code.
+func VerifErrorStatus(code string) int {
+	_, status := errorStatus(&reserr.Error{Code: code, Message: "x"})
+	return status
+}
+
+// VerifStatusError exposes statusError; returns the RES error code.
+func VerifStatusError(status int) string {
+	return statusError(status).Code
+}
+
+// VerifMatchesOrigins exposes matchesOrigins.
+func VerifMatchesOrigins(os []string, o string) bool {
+	return matchesOrigins(os, o)
+}
+
+// VerifToLowerASCII exposes toLowerASCII.
+func VerifToLowerASCII(s string) string {
+	return toLowerASCII(s)
+}
